@@ -25,7 +25,7 @@ CLAIMED = {}
 CLAIMED["C20"] = dict(
     engine="oom", level="fault_enumeration", design_ref="DESIGN.md section 3, C20",
     technique="deterministic simulation with fault injection: simulated heap behind a link-time seam, every allocation request of each seeded scenario made to fail in turn, process fate classified",
-    text="For each seeded scenario program (every operation of the table incl. >64 simultaneously live headers, operands that are views, 4 build variants, cold and warm caches, small and shipped cache knobs; "
+    text="For each seeded scenario program (every operation of the table incl. >64 and >1024 simultaneously live headers, data blocks above the cache threshold, operands that are views, 4 build variants, cold and warm caches, small and shipped cache knobs; "
          "plus the OpenMP builds running mul_mp/addmul_mp/M4RM/M4RI on the simulated runtime with a team of 3) "
          "every single allocation request i = 0..N-1 is made to fail in its own forked execution under ASan/UBSan; the only admissible fate is abort "
          "reached from library code with a diagnostic on stderr. Exhaustive over fault positions per scenario, sampling over scenarios.",
@@ -57,7 +57,7 @@ CLAIMED["C10"] = dict(
     technique="deterministic simulation: the same probe call replayed in several simulated worlds (seeded call-history prefix, dirty/recycling heap behind the allocation seam, junk in overwritten destinations); outcomes compared bit for bit with the fresh world; padding invariant after every call",
     text="For each operation of the table a seeded probe call (operands from structured generators, all routes, k and cutoff drawn, cache knobs small in half of the runs) is executed in 4 (quick) / 8 (thorough) "
          "worlds in one forked process: world 0 is what the test-suite sees (no history, zeroed heap), the others have a prefix of up to 24 other library calls, a heap that fills fresh blocks with 0xFF / 0xA5 / random words / "
-         "small indices / stale content and recycles freed blocks immediately, and junk in every destination and permutation the call overwrites. Every result matrix, permutation, scalar return and the fate of the call must equal "
+         "small indices / stale content and recycles freed blocks immediately, junk in every destination and permutation the call overwrites, and - for operands that are views into larger matrices - different content around the view. Every result matrix, permutation, scalar return and the fate of the call must equal "
          "world 0; excess bits of every owned matrix must be zero after every call (prefix included). Two flavours: ASan+UBSan and plain -O2 with the recycling allocator; four build variants.",
     note="Differential against the same tree: a wrong value computed identically in all worlds is silent (C01-C08 are not claimed). Sampling over probe calls and worlds.")
 
@@ -86,7 +86,7 @@ CLAIMED["C15"] = dict(
     text="Each run: every thread executes its own seeded sequence of 2-12 library calls (any operation of the table except file I/O and mzd_randomize) on operands it creates itself; first all threads one after the other, "
          "then under one seeded schedule (random-walk or PCT-style preemption at memory accesses, function entries and heap calls; seeded creation order), finally each sequence solo. Oracles: the monitor, whose only ordering edges are "
          "thread creation/join and free->malloc, must see no conflicting unordered access anywhere in library code (independent of whether the bad interleaving occurred); every thread's outcome hash equals its solo run; allocations balanced. "
-         "Control on every invocation: the default (non-thread-safe) build under the same workload must be flagged.",
+         "Every fifth run is focused: 2-3 threads execute the same operation in its recursive / wide regimes (smallest cache knobs). Control on every invocation: the default (non-thread-safe) build under the same workload must be flagged.",
     note="One task runs at a time (no weak-memory effects); the allocator behind the seam is assumed thread-safe; sampling over workloads and schedules.")
 
 CLAIMED["C12"] = dict(
@@ -94,7 +94,9 @@ CLAIMED["C12"] = dict(
     technique="deterministic simulation, configuration swarm: build variants {sse2,no-sse2} x {caches,thread-safe} x {sequential,OpenMP on the simulated runtime} linked side by side with the shipped default configuration; cache sizes as per-run knobs through the generated m4ri_config.h; seeded k, cutoff, team size",
     text="For each operand set (structured generators; dimensions at and around the thresholds the drawn cache sizes imply, multiples of 64 +-1, low-rank blocks) one operation family - product, accumulate (incl. squaring and the _mp front ends), "
          "RREF + rank (all echelonisers, full in {0,1} completed by the top reduction), inverse, four TRSMs, trtri, solve verdict with A*X, P*L*U*Q and P*L*E reconstructed with the reference arithmetic + rank - is evaluated under 12 (quick) / 24 (thorough) "
-         "configurations (variant, L1<=L2<=L3 from {4K..64K}x{32K..2M}x{64K..64M}, k in 0..10, cutoff in {0,64,..,2048,100}, team size 1..16) and must equal the same entry point in the shipped default configuration with k = 0 and cutoff = 0, bit for bit.",
+         "configurations (variant, L1<=L2<=L3 from {4K..64K}x{32K..4M}x{64K..64M}, k in 0..10, cutoff in {0,64,..,2048,100}, team size 1..16) and must equal the same entry point in the shipped default configuration with k = 0 and cutoff = 0, bit for bit. "
+         "Two shape classes outside the usual box: flat operands (one dimension 1..8, another beyond L3/3 columns of the smallest L3) and products with all dimensions just above 4096 (where the automatic k reaches its upper end). "
+         "A varied configuration that does not return within 60x the CPU time of the shipped one (at least 4 s) is a violation too (no result is a different result).",
     note="Purely differential against the same tree. Knob builds turn the cache-size constants into loads (the three '#if X == 0' fix-ups are skipped as for any non-zero size). Quick links 4 of 8 variants.")
 
 NOT_BUILT = {}
